@@ -33,7 +33,8 @@ EXPLANATION = (
     'chains of one operator, mixed chains, and blanks around operators and at both ends leave / give the expected trees. '
     '(C01.10) one witness workbook holding the parenthesised / chained / plain formula twins side by side and operators '
     'over cells that hold 0, compiled and evaluated as written: every cell equals the same formula evaluated on its own. '
-    '(C01.7) the scientific-notation guard is decided by tokenizing witness formulas.')
+    '(C01.7) the scientific-notation guard is decided by tokenizing witness formulas.'
+    ' (C01.10) also: numeric literals written .5 / 5., and the same formulas after the operands were assigned through every public route (Evaluator.set_cell_value, Model.set_cell_value, both with XLCell addresses) and on a second evaluator.')
 NOT_DECIDED = ('that the tokenizer emits the right token stream for every rendering (blanks, '
                'redundant parentheses), and the numeric values computed')
 TRUSTED = ['Excel operator classes transcribed from the property statement (rules/common.py)', 'workbook scenarios: pandas storage of range arrays as row-major rows, numpy on Python numbers (IEEE results, 64-bit integer wrap), dateutil.parser.parse rejecting texts that are no dates, openpyxl address arithmetic, inspect.signature built from the FunctionDef']
